@@ -107,6 +107,60 @@ def nontrivial(case):
     return False
 
 
+def unknown_label_cases(run, rng, n):
+    """order-sensitive reductions with labels held in a DASK array and no expected_groups (discovered at compute time): blocks whose label
+    sets are disjoint and not in ascending order, blocks whose labels are all missing, labels shared between blocks; chunked vs in-memory
+    (values, returned labels in ascending order, dtype)"""
+    from tools.lib import fuzz as Z
+
+    c = None
+    for _ in range(n):
+        nb = rng.randint(2, 5)
+        pool = rng.sample([0.0, 1.0, 2.0, 3.0, 5.0, 8.0], k=rng.randint(2, 5))
+        style = rng.choice(["disjoint-descending", "disjoint-random", "shared", "with-missing-block"])
+        labels, chunks = [], []
+        order = sorted(pool, reverse=True) if style == "disjoint-descending" else rng.sample(pool, len(pool))
+        for b in range(nb):
+            size = rng.randint(1, 4)
+            if style in ("disjoint-descending", "disjoint-random"):
+                lab = [order[b % len(order)]] * size if b < len(order) else ["nan"] * size
+            elif style == "with-missing-block" and b == rng.randrange(nb):
+                lab = ["nan"] * size
+            else:
+                lab = [rng.choice(pool) for _ in range(size)]
+            labels += lab
+            chunks.append(size)
+        if all(x == "nan" for x in labels):
+            continue
+        func = rng.choice(["argmax", "argmin", "nanargmax", "nanargmin", "nanfirst", "nanlast", "first", "last"])
+        vals = [float(rng.choice([-2, -1, 0, 1, 2, 2, 3])) for _ in labels]
+        if func.startswith("nan"):
+            vals = [v if rng.random() > 0.2 else "nan" for v in vals]
+            # the property speaks of nanarg* / nanfirst only for groups that are not entirely NaN: keep one valid member per group
+            for g in {x for x in labels if x != "nan"}:
+                idx = [i for i, x in enumerate(labels) if x == g]
+                if all(vals[i] == "nan" for i in idx):
+                    vals[rng.choice(idx)] = float(rng.randint(-2, 3))
+        c = {"func": func, "dtype": "float64", "bshape": [], "lshape": [len(labels)], "vals": vals,
+             "groupers": [{"shape": [len(labels)], "labels": labels, "dtype": "float64", "expected": None}],
+             "engine": "numpy", "sort": True, "chunks": [chunks], "method": rng.choice([None, "map-reduce"]), "reindex": None,
+             "split_every": rng.choice([None, 2]), "by_dask": True}
+        eager = Z.evaluate(c, False)
+        if eager[0] != "Ok":
+            continue
+        chunked = Z.evaluate(c, True)
+        run.count("unk|" + str(c), len(chunks) > 1)
+        d = Z.compare(c, eager, chunked)
+        if d == "REFUSED":
+            run.extra["refused_cases"] = run.extra.get("refused_cases", 0) + 1
+        elif d:
+            run.violation({"property": "C06", "kind": "labels discovered at compute time: the chunked evaluation differs from the in-memory evaluation: " + d, "request": c,
+                           "in_memory": [eager[1].tolist(), [g.tolist() for g in eager[2]], eager[3]],
+                           "chunked": [chunked[1].tolist(), [g.tolist() for g in chunked[2]], chunked[3]] if chunked[0] == "Ok" else list(chunked)}, tag="unk")
+    if c:
+        run.sample({"unknown_label_case": {k: v for k, v in c.items() if k != "vals"}})
+
+
 def run(run: C.Run):
     rng = random.Random(run.seed)
     proofs_ok = P.front(run, translators=("registry",))
@@ -118,6 +172,7 @@ def run(run: C.Run):
     if not proofs_ok and not run.violations:
         run.violation({"property": "C06", "kind": "proof obligation no longer checks", "failed": P.failed_obligations(run)},
                       nofail=True, tag="obligation")
+    unknown_label_cases(run, rng, 1500 if run.tier == "thorough" else 200)
     from tools.lib import fuzz as Z
     Z.run_stream(run, rng, 1500 if run.tier == "thorough" else 160, "C06",
                  funcs=["argmax", "argmin", "nanargmax", "nanargmin", "first", "last", "nanfirst", "nanlast"])
